@@ -54,6 +54,10 @@ breaking('refix-maximally_coherent_state', {'C18': 'RD1'}, patch_reverse='fix_b5
 breaking('refix-gimbal-sign', {'C15': 'AG1'}, edit=[(M + 'group/_lie.py', "tmp0 = np.arctan2(x10[ind0], x00[ind0]) % (2*np.pi) #(0,2*pi) alpha+gamma", "tmp0 = np.arccos(np.clip(x00[ind0], -1, 1)) #(0,pi) alpha+gamma")])
 breaking('refix-arccos-clip-beta', {'C15': 'F3'}, edit=[(M + 'group/_lie.py', "beta = np.arccos(np.clip(x22, -1, 1))", "beta = np.arccos(x22)")])
 breaking('refix-arccos-clip-generic', {'C15': 'F3'}, patch_reverse='fix_8f74388.diff')
+breaking('refix-euler-batch', {'C01': 'SH1'}, patch_reverse='fix_e495357.diff')
+breaking('R1-conj-wrong-condition', {'C03': 'R1'}, edit=[(M + 'sim/dm.py', "tmp2 = np.conjugate(op).reshape(", "tmp2 = (op if np.isrealobj(dm) else np.conjugate(op)).reshape(")])
+breaking('R1-control-uniform-offset', {'C03': 'R1'}, edit=[(M + 'sim/state.py', "    tmp0 = [x for x in range(num_qubit) if x not in ind_control_set]\n    index_map = {y:x for x,y in enumerate(tmp0)}\n    ind_target_new = [index_map[x] for x in ind_target]", "    tmp0 = sum(1 for x in ind_control_set if x<ind_target[0])\n    ind_target_new = [(x-tmp0) for x in ind_target]")])
+breaking('D5-sorted-targets', {'C03': 'D5'}, edit=[(M + 'sim/circuit.py', "target_qubit = hf_tuple_of_int(index[1])", "target_qubit = tuple(sorted(hf_tuple_of_int(index[1])))")])
 breaking('refix-get_gme_2qubit', {'C13': 'F2', 'C05': 'F2'}, patch_reverse='fix_78cd862.diff')
 
 # ---- textual breaking edits, one per rule family
